@@ -213,7 +213,7 @@ def w_main(days: int, s0: int, s1: int, s2: int, clock: int, kind: int) -> str:
     pre: 0 <= days < 5 and 0 <= s0 < 12 and 0 <= s1 < 12 and 0 <= s2 < 12 and 0 <= clock < 3 and 0 <= kind < 2
     post: _ == ''
     """
-    return _case(rt.sel(days, 5), rt.sel(s0, 12), rt.sel(s1, 12), rt.sel(s2, 12), rt.sel(clock, 3), [0, 2][kind])
+    return _case(rt.sel(days, 5), rt.sel(s0, 12), rt.sel(s1, 12), rt.sel(s2, 12), rt.sel(clock, 3), rt.of([0, 2], kind))
 
 
 def w_quick(days: int, s0: int, clock: int, kind: int) -> str:
